@@ -16,6 +16,7 @@ import (
 	"math/big"
 	"os"
 	"runtime"
+	"sort"
 	"strings"
 	"sync"
 	"sync/atomic"
@@ -40,22 +41,25 @@ type verSpec struct {
 	name  string
 	t     twallet.Version
 	r     rwallet.Version
-	known bool // code hash is one the server can read a key from
+	known bool // one of the wallet versions the statement quantifies over (v1r1 .. v5r1): the server must read the key from its state-init
+	// derive: not in that list. Whether the server counts it as a known wallet is the library's choice;
+	// it is taken from what ParseStateInit says about the wallet's genuine state-init (the wallet's key, or not)
+	derive bool
 }
 
 var specs = []verSpec{
-	{"V1R1", twallet.V1R1, rwallet.V1R1, true},
-	{"V1R2", twallet.V1R2, rwallet.V1R2, true},
-	{"V1R3", twallet.V1R3, rwallet.V1R3, true},
-	{"V2R1", twallet.V2R1, rwallet.V2R1, true},
-	{"V2R2", twallet.V2R2, rwallet.V2R2, true},
-	{"V3R1", twallet.V3R1, rwallet.V3R1, true},
-	{"V3R2", twallet.V3R2, rwallet.V3R2, true},
-	{"V4R1", twallet.V4R1, rwallet.V4R1, true},
-	{"V4R2", twallet.V4R2, rwallet.V4R2, true},
-	{"V5Beta", twallet.V5Beta, rwallet.V5Beta, true},
-	{"V5R1", twallet.V5R1, rwallet.V5R1, true},
-	{"HighLoadV2R2", twallet.HighLoadV2R2, rwallet.HighloadV2R2, false}, // not among the server's known wallets: get-method path only
+	{"V1R1", twallet.V1R1, rwallet.V1R1, true, false},
+	{"V1R2", twallet.V1R2, rwallet.V1R2, true, false},
+	{"V1R3", twallet.V1R3, rwallet.V1R3, true, false},
+	{"V2R1", twallet.V2R1, rwallet.V2R1, true, false},
+	{"V2R2", twallet.V2R2, rwallet.V2R2, true, false},
+	{"V3R1", twallet.V3R1, rwallet.V3R1, true, false},
+	{"V3R2", twallet.V3R2, rwallet.V3R2, true, false},
+	{"V4R1", twallet.V4R1, rwallet.V4R1, true, false},
+	{"V4R2", twallet.V4R2, rwallet.V4R2, true, false},
+	{"V5Beta", twallet.V5Beta, rwallet.V5Beta, true, false},
+	{"V5R1", twallet.V5R1, rwallet.V5R1, true, false},
+	{"HighLoadV2R2", twallet.HighLoadV2R2, rwallet.HighloadV2R2, false, true},
 }
 
 // ---- scripted executor ----
@@ -117,6 +121,9 @@ type wal struct {
 	raddr [32]byte
 	si    tlb.StateInit
 	siB64 string // reference-encoded state-init as a base64 BOC
+	// custom describes non-default wallet parameters ("" = defaults); customRefused: asked for, but the wallet package and the reference disagree
+	custom        string
+	customRefused bool
 }
 
 func (w *wal) address() string { return fmt.Sprintf("%d:%s", w.wc, hex.EncodeToString(w.raddr[:])) }
@@ -129,29 +136,86 @@ func bocB64(roots ...*cell.Cell) string {
 	return base64.StdEncoding.EncodeToString(b)
 }
 
-func newWal(s verSpec, rng *mon.Rng) (*wal, error) {
+// walOpts selects the rarer kinds of wallet.
+type walOpts struct {
+	zeroLead int  // the public key starts with that many zero bytes (0, 1 or 2): get_public_key answers an integer, leading zeros vanish
+	custom   bool // a sub-wallet number / network id other than the default
+}
+
+// grindKey draws key pairs until the public key starts with n zero bytes.
+func grindKey(rng *mon.Rng, n int) ed25519.PrivateKey {
+	for {
+		priv := ed25519.NewKeyFromSeed(rng.Bytes(32))
+		pub := priv.Public().(ed25519.PublicKey)
+		ok := true
+		for i := 0; i < n; i++ {
+			if pub[i] != 0 {
+				ok = false
+			}
+		}
+		if ok {
+			return priv
+		}
+	}
+}
+
+func newWal(s verSpec, rng *mon.Rng, o walOpts) (*wal, error) {
 	w := &wal{spec: s}
-	w.priv = ed25519.NewKeyFromSeed(rng.Bytes(32))
+	w.priv = grindKey(rng, o.zeroLead)
 	w.pub = w.priv.Public().(ed25519.PublicKey)
 	w.wc = int32(mon.Pick(rng, []int{0, 0, 0, -1}))
-	rp := rwallet.Params{Ver: s.r, Workchain: w.wc}
-	copy(rp.PubKey[:], w.pub)
-	h, err := rwallet.Address(rp)
-	if err != nil {
-		return nil, err
+	var sub *uint32
+	var net *int32
+	if o.custom {
+		// v5r1: the library has no option for the sub-wallet number (noted in DESIGN §11): only the network id varies there
+		if rwallet.HasSubWallet(s.r) && s.r != rwallet.V5R1 {
+			x := uint32(rng.Uint64())
+			if rng.Bool() {
+				x = uint32(rng.Intn(5))
+			}
+			sub = &x
+		}
+		if rwallet.HasNetworkID(s.r) {
+			x := int32(mon.Pick(rng, []int{rwallet.TestnetGlobalID, rwallet.TestnetGlobalID, 0, 1, int(int32(rng.Uint64()))}))
+			net = &x
+		}
 	}
-	w.raddr = h
-	rsi, _ := rwallet.InitialState(rp)
-	w.siB64 = bocB64(rsi)
-	w.addr, err = twallet.GenerateWalletAddress(w.pub, s.t, nil, int(w.wc), nil)
-	if err != nil {
-		return nil, err
+	build := func(sub *uint32, net *int32) error {
+		rp := rwallet.Params{Ver: s.r, Workchain: w.wc, SubWallet: sub, NetworkID: net}
+		copy(rp.PubKey[:], w.pub)
+		h, err := rwallet.Address(rp)
+		if err != nil {
+			return err
+		}
+		w.raddr = h
+		rsi, _ := rwallet.InitialState(rp)
+		w.siB64 = bocB64(rsi)
+		w.addr, err = twallet.GenerateWalletAddress(w.pub, s.t, net, int(w.wc), sub)
+		if err != nil {
+			return err
+		}
+		if w.addr.Address != tlb.Bits256(h) {
+			return fmt.Errorf("library address differs from the reference address for %s (C15's business)", s.name)
+		}
+		w.si, err = twallet.GenerateStateInit(w.pub, s.t, net, int(w.wc), sub)
+		return err
 	}
-	if w.addr.Address != tlb.Bits256(h) {
-		return nil, fmt.Errorf("library address differs from the reference address for %s (C15's business)", s.name)
+	if sub != nil || net != nil {
+		if err := build(sub, net); err == nil {
+			w.custom = fmt.Sprintf("sub-wallet=%v network=%v", deref(sub), deref(net))
+			return w, nil
+		}
+		// the wallet package cannot build this variant the way the reference does: not this property's business
+		w.customRefused = true
 	}
-	w.si, err = twallet.GenerateStateInit(w.pub, s.t, nil, int(w.wc), nil)
-	return w, err
+	return w, build(nil, nil)
+}
+
+func deref[T any](p *T) any {
+	if p == nil {
+		return "default"
+	}
+	return *p
 }
 
 // ---- one call, observed ----
@@ -291,18 +355,40 @@ type base struct {
 	oldTS    bool // timestamp = now - life + 60 instead of now
 	oldPay   bool // payload with embedded time now - lifePay + 60 (crafted) instead of GeneratePayload
 	allFlips bool
+	zeroW    int  // leading zero bytes of the wallet's public key
+	zeroO    int  // ... of the other wallet's
+	custom   bool // non-default sub-wallet number / network id
 }
 
 func runBase(e env, b base, rngOf func(label string, i int) *mon.Rng) {
 	rng := rngOf("base", b.idx)
-	w, err := newWal(b.spec, rng)
+	w, err := newWal(b.spec, rng, walOpts{zeroLead: b.zeroW, custom: b.custom})
 	if err != nil {
 		e.sink.Violation("error@wallet-setup/"+b.spec.name, map[string]any{"err": err.Error()})
 		return
 	}
-	other, err := newWal(b.spec, rng)
+	other, err := newWal(b.spec, rng, walOpts{zeroLead: b.zeroO})
 	if err != nil {
 		return
+	}
+	if b.zeroW > 0 || b.zeroO > 0 {
+		e.sink.Count("bases_with_a_key_starting_with_zero_bytes", 1)
+		e.sink.Seen("key_classes", fmt.Sprintf("wallet-key-zero-bytes=%d/other-key-zero-bytes=%d/active=%v", b.zeroW, b.zeroO, b.active))
+	}
+	if w.custom != "" {
+		e.sink.Count("bases_with_custom_wallet_parameters", 1)
+		e.sink.Seen("custom_wallet_parameters", b.spec.name)
+	} else if w.customRefused {
+		e.sink.Count("custom_wallet_parameters_not_buildable_with_the_wallet_package", 1)
+	}
+	known := b.spec.known
+	if b.spec.derive {
+		var k []byte
+		var perr error
+		if p := mon.Guard(func() { k, perr = tonconnect.ParseStateInit(w.siB64) }); p == nil && perr == nil && string(k) == string(w.pub) {
+			known = true
+		}
+		e.sink.Seen("derived_known_wallet", fmt.Sprintf("%s=%v", b.spec.name, known))
 	}
 	ex := &executor{active: map[ton.AccountID]answer{}}
 	secret := hex.EncodeToString(rng.Bytes(rng.Range(1, 24)))
@@ -319,6 +405,9 @@ func runBase(e env, b base, rngOf func(label string, i int) *mon.Rng) {
 	}
 	cls := b.spec.name + "/" + mode
 	x := map[string]any{"version": b.spec.name, "mode": mode, "wallet_key": mon.Hex(w.pub), "proof_lifetime": b.life, "payload_lifetime": b.lifePay, "base": b.idx}
+	if w.custom != "" {
+		x["wallet_parameters"] = w.custom
+	}
 
 	mkPayload := func() string {
 		if b.oldPay {
@@ -355,7 +444,7 @@ func runBase(e env, b base, rngOf func(label string, i int) *mon.Rng) {
 	}
 
 	// --- positives ---
-	if !b.spec.known && !b.active {
+	if !known && !b.active {
 		// a wallet the server has no layout for and cannot query: nothing to accept; it must reject
 		e.expectReject("state-init-of-unlisted-wallet-code", cls, srv, refProof(w, w.priv, b.domain, ts, payload, true), b.domain, x)
 		return
@@ -424,7 +513,7 @@ func runBase(e env, b base, rngOf func(label string, i int) *mon.Rng) {
 		rej("domain-truncated", p, p.Proof.Domain)
 	}
 
-	for _, d := range []int64{1, -1, 1 << 32} {
+	for _, d := range []int64{1, -1, 1 << 32, 1 << 33, 1 << 40, 1 << 48, 1 << 56, 1 << 62} {
 		p = clone(rp)
 		p.Proof.Timestamp = ts + d
 		if d == -1 && b.oldTS {
@@ -561,7 +650,7 @@ func runMalformed(e env, idx int, rngOf func(label string, i int) *mon.Rng) {
 	rng := rngOf("mal", idx)
 	known := specs[:11]
 	s := known[idx%len(known)]
-	w, err := newWal(s, rng)
+	w, err := newWal(s, rng, walOpts{})
 	if err != nil {
 		e.sink.Violation("error@wallet-setup/"+s.name, map[string]any{"err": err.Error()})
 		return
@@ -601,13 +690,41 @@ func runMalformed(e env, idx int, rngOf func(label string, i int) *mon.Rng) {
 	// address field
 	hx := hex.EncodeToString(w.raddr[:])
 	for _, a := range []string{"", "0", hx, "0" + hx, "0:", ":" + hx, "0:" + hx[:63], "0:" + hx[:4], "0:" + hx[:62], "0:" + hx + "00", "x:" + hx, "99999999999:" + hx,
-		"0:" + "zz" + hx[2:], "0:" + hx + ":1", w.addr.ToHuman(true, false), " 0:" + hx, "0:" + hx + " ", "0x0:" + hx, "-:" + hx, "0:" + strings.Repeat("0", 64)} {
+		"0:" + "zz" + hx[2:], "0:" + hx + ":1", "0x0:" + hx, "-:" + hx, "0:" + strings.Repeat("0", 64)} {
 		if a == fmt.Sprintf("%d:%s", w.wc, hx) {
 			continue
 		}
 		p := clone(goodSI)
 		p.Address = a
 		rej("malformed-address", p)
+	}
+	// other spellings of the same account (user-friendly form, surrounding blanks, upper-case hex): the statement does not
+	// call them malformed; a server may refuse them or resolve them to the account. Only a crash, a rejection without an
+	// error or somebody else's key would be wrong.
+	for _, a := range []string{w.addr.ToHuman(true, false), w.addr.ToHuman(false, false), " " + w.address(), w.address() + " ", fmt.Sprintf("%d:%s", w.wc, strings.ToUpper(hx)), fmt.Sprintf("+%d:%s", w.wc, hx)} {
+		if a == w.address() {
+			continue
+		}
+		p := clone(goodSI)
+		p.Address = a
+		e.begin("other-spelling-of-the-address", p)
+		o := call(srv, p, domain)
+		e.end()
+		e.sink.Eval("spelling/" + s.name)
+		switch {
+		case o.panic != nil:
+			wv := witness("other-spelling-of-the-address", p, x)
+			wv["panic"], wv["stack"] = o.panic.Value, mon.Trunc(o.panic.Stack, 1500)
+			e.sink.Violation("panic@"+o.panic.Site+"/other-spelling-of-the-address", wv)
+		case o.ok && string(o.key) != string(w.pub):
+			e.sink.Violation("wrong-key-returned@other-spelling-of-the-address", witness("other-spelling-of-the-address", p, x))
+		case !o.ok && o.err == nil:
+			e.sink.Violation("rejected-without-error@other-spelling-of-the-address", witness("other-spelling-of-the-address", p, x))
+		case o.ok:
+			e.sink.Count("other_spellings_of_the_address_accepted", 1)
+		default:
+			e.sink.Count("other_spellings_of_the_address_refused", 1)
+		}
 	}
 
 	// state-init field; the account is not active for these (the key has to come from the state-init)
@@ -727,7 +844,7 @@ func main() {
 		tier = os.Args[1]
 	}
 	R := mon.Start("C19", tier)
-	R.Rule = "each base = (wallet version, key source: get_public_key answer or state-init, domain, lifetimes, fresh or nearly expired timestamp/payload); a proof by tonconnect.CreateSignedProof (also judged by the reference verifier) and one by the independent reference signer must be accepted with the wallet's key; then one field is changed at a time (rejection matrix incl. signature bit flips, state-init substitutions, expiry at lifetime+60 s, payload forgeries) and must give (false, _, err); malformed proofs run in child processes under a panic guard; non-trivial = every CheckProof call judged; distinct = (matrix entry, version, key source) classes and distinct accepted proofs"
+	R.Rule = "each base = (wallet version, key source: get_public_key answer or state-init, domain, lifetimes, fresh or nearly expired timestamp/payload); a proof by tonconnect.CreateSignedProof (also judged by the reference verifier) and one by the independent reference signer must be accepted with the wallet's key; then one field is changed at a time (rejection matrix incl. signature bit flips, state-init substitutions, expiry at lifetime+60 s, payload forgeries) and must give (false, _, err); bases include wallets whose public key starts with zero byte(s) (for the wallet and for the other party, both key sources), wallets with a non-default sub-wallet number / network id, and timestamp substitutions in every byte of the 64-bit field; one server shared by 16 goroutines must judge every payload and proof as a single-threaded one would; whether a wallet version outside v1r1..v5r1 is a known wallet is taken from ParseStateInit on its genuine state-init; other spellings of the right address (user-friendly form, blanks, upper case) may be accepted or refused; malformed proofs run in child processes under a panic guard; non-trivial = every CheckProof call judged; distinct = (matrix entry, version, key source) classes and distinct accepted proofs"
 	R.Assume("reference ton_proof message and signer in harness/ref/wallet are written from the ton-connect specification; no literal network vector for ton_proof exists in the repository, so a shared misreading of that document would go unnoticed")
 	R.Assume("wallet state-inits and addresses come from the reference wallet model (validated at start-up against real address vectors)")
 	R.Assume("proof timestamps in the future are not part of the statement and are not tested")
@@ -753,6 +870,18 @@ func main() {
 		b.oldTS = rng.Chance(1, 3)
 		b.oldPay = rng.Chance(1, 3)
 		b.allFlips = R.Thorough() || i%6 == 0
+		// a quarter of the bases each: the wallet's / the other wallet's public key starts with a zero byte
+		// (as an integer from get_public_key it is shorter than 32 bytes); two zero bytes in a few thorough bases
+		switch (i / (2 * len(specs))) % 4 {
+		case 1:
+			b.zeroW = 1
+		case 3:
+			b.zeroO = 1
+		}
+		if R.Thorough() && i%300 == 24 {
+			b.zeroW, b.zeroO = 2, 0
+		}
+		b.custom = rng.Chance(1, 4)
 		bases = append(bases, b)
 	}
 	e := env{sink: R}
@@ -790,6 +919,11 @@ func main() {
 	// message in four. It must never be accepted: either the code is not a known wallet, or the key
 	// parsed from the junk data is a real 32-byte value under which the degenerate signature fails.
 	keyless(R)
+
+	// --- one server used by many goroutines at once (an HTTP backend does exactly that): every payload it issued
+	// must check true, every tampered or foreign one false, every valid proof must be accepted with the wallet's
+	// key and every tampered one refused, whatever the other goroutines are doing
+	sharedServer(R)
 
 	// --- payloads issued by the server itself expire after their lifetime (decided by waiting: the
 	// verdict "must be rejected" only gets safer when the machine is slow)
@@ -843,6 +977,125 @@ func main() {
 	R.Extra("malformed_wallets", nMal)
 	wgp.Wait()
 	os.Exit(R.Finish())
+}
+
+// sharedServer: see the call site. Lifetimes are an hour, so nothing here depends on the clock.
+func sharedServer(R *mon.Run) {
+	ex := &executor{active: map[ton.AccountID]answer{}}
+	secret := "shared-" + hex.EncodeToString(R.Rng("shared", 0).Bytes(12))
+	srv, err := tonconnect.NewTonConnect(ex, secret, tonconnect.WithLifeTimeProof(3600), tonconnect.WithLifeTimePayload(3600))
+	if err != nil {
+		R.HarnessError("NewTonConnect: %v", err)
+		return
+	}
+	const workers = 16
+	iters := R.N(250, 4000)
+	var mu sync.Mutex
+	first := map[string]map[string]any{}
+	report := func(sig string, w map[string]any) {
+		mu.Lock()
+		if _, ok := first[sig]; !ok {
+			first[sig] = w
+		}
+		mu.Unlock()
+	}
+	var wg sync.WaitGroup
+	for g := 0; g < workers; g++ {
+		wg.Add(1)
+		go func(g int) {
+			defer wg.Done()
+			rng := R.Rng("shared-worker", g)
+			spec := specs[g%11]
+			w, err := newWal(spec, rng, walOpts{})
+			if err != nil {
+				report("error@wallet-setup/"+spec.name, map[string]any{"err": err.Error()})
+				return
+			}
+			if g%2 == 0 {
+				ex.set(w.addr, &answer{key: w.pub})
+			}
+			domain := "shared.example"
+			for it := 0; it < iters; it++ {
+				var pay string
+				var perr error
+				if p := mon.Guard(func() { pay, perr = srv.GeneratePayload() }); p != nil || perr != nil {
+					report("error@GeneratePayload/shared-server", map[string]any{"err": fmt.Sprint(perr, p)})
+					return
+				}
+				var ok bool
+				var cerr error
+				if p := mon.Guard(func() { ok, cerr = srv.CheckPayload(pay) }); p != nil {
+					report("panic@"+p.Site+"/CheckPayload/shared-server", map[string]any{"panic": p.Value, "stack": mon.Trunc(p.Stack, 1200)})
+					return
+				} else if !ok {
+					report("rejected-valid-payload@shared-server", map[string]any{"payload": pay, "err": fmt.Sprint(cerr), "iteration": it, "goroutine": g})
+				}
+				// independent judgement of what the server issued: MAC under the secret, as the reference computes it
+				if raw, derr := hex.DecodeString(pay); derr == nil && len(raw) == 32 {
+					var n8 [8]byte
+					copy(n8[:], raw[:8])
+					var t int64
+					for _, b := range raw[8:16] {
+						t = t<<8 | int64(b)
+					}
+					if rwallet.ServerPayload(secret, n8, t) != pay {
+						report("issued-payload-not-under-the-secret@shared-server", map[string]any{"payload": pay, "iteration": it, "goroutine": g})
+					}
+				} else {
+					report("issued-payload-malformed@shared-server", map[string]any{"payload": pay})
+				}
+				raw, _ := hex.DecodeString(pay)
+				if len(raw) == 32 {
+					raw[16+rng.Intn(16)] ^= 1 << uint(rng.Intn(8))
+					bad := hex.EncodeToString(raw)
+					if p := mon.Guard(func() { ok, _ = srv.CheckPayload(bad) }); p != nil {
+						report("panic@"+p.Site+"/CheckPayload/shared-server", map[string]any{"panic": p.Value})
+						return
+					} else if ok {
+						report("accepted-tampered-payload@shared-server", map[string]any{"payload": bad, "iteration": it, "goroutine": g})
+					}
+				}
+				var n8 [8]byte
+				copy(n8[:], rng.Bytes(8))
+				foreign := rwallet.ServerPayload(secret+"x", n8, time.Now().Unix())
+				if p := mon.Guard(func() { ok, _ = srv.CheckPayload(foreign) }); p == nil && ok {
+					report("accepted-foreign-payload@shared-server", map[string]any{"payload": foreign, "iteration": it, "goroutine": g})
+				}
+				R.Eval(fmt.Sprintf("shared/payload/%d/%d", g, it))
+				if it%4 != 0 {
+					continue
+				}
+				ts := time.Now().Unix()
+				rp := refProof(w, w.priv, domain, ts, pay, true)
+				o := call(srv, rp, domain)
+				switch {
+				case o.panic != nil:
+					report("panic@"+o.panic.Site+"/CheckProof/shared-server", map[string]any{"panic": o.panic.Value, "stack": mon.Trunc(o.panic.Stack, 1200)})
+					return
+				case !o.ok || o.err != nil:
+					report("rejected-valid-proof@shared-server", witness("shared-server", rp, map[string]any{"err": fmt.Sprint(o.err), "version": spec.name, "iteration": it, "goroutine": g}))
+				case string(o.key) != string(w.pub):
+					report("wrong-key-returned@shared-server", witness("shared-server", rp, map[string]any{"returned_key": mon.Hex(o.key), "wallet_key": mon.Hex(w.pub)}))
+				}
+				bp := clone(rp)
+				bp.Proof.Timestamp = ts + 1
+				if o := call(srv, bp, domain); o.panic == nil && o.ok {
+					report("accepted@shared-server/timestamp-changed", witness("shared-server", bp, map[string]any{"version": spec.name}))
+				}
+				R.Eval(fmt.Sprintf("shared/proof/%d/%d", g, it))
+			}
+		}(g)
+	}
+	wg.Wait()
+	R.Count("shared_server_payloads", int64(workers*iters))
+	sigs := make([]string, 0, len(first))
+	for sg := range first {
+		sigs = append(sigs, sg)
+	}
+	sort.Strings(sigs)
+	for _, sg := range sigs {
+		R.Violation(sg, first[sg])
+	}
 }
 
 // keyless: see the call site.
